@@ -52,93 +52,88 @@ Proof.
 Qed.
 
 (** ------------------------------------------------------------------ no comma in the text of an all-atom tree *)
-Lemma upper_nocomma e : str_in e upper_organic = true -> nocomma e.
-Proof. intros H. destruct (upper_cases e H) as [->|[->|[->|[->|[->|[->|[->|[->|[->| ->]]]]]]]]]; unfold nocomma; cbn; intuition discriminate. Qed.
 Lemma optb_nocomma o : nocomma (optb o).
 Proof. destruct o as [[]|]; unfold nocomma; cbn; intuition discriminate. Qed.
-Lemma tree_text_nocomma el D eo T : (forall k, str_in (el k) upper_organic = true) -> (forall k, forallb d_ok (D k) = true) ->
-  nocomma (tree_text el D eo T).
+Lemma nocomma_b s : forallb (fun c => negb (Ascii.eqb c ","%char)) s = true -> nocomma s.
+Proof. intros H Hin. rewrite forallb_forall in H. specialize (H _ Hin). now rewrite Ascii.eqb_refl in H. Qed.
+Lemma tree_text_nocomma sp D eo T : (forall k, aspec_ok (sp k) = true) -> (forall k, forallb d_ok (D k) = true) ->
+  nocomma (tree_text (stok sp) D eo T).
 Proof.
-  intros HU HD. unfold tree_text. rewrite (render_aitems el D HD). induction (wvis eo None false 0 T) as [|v r IH]; [intros []|].
+  intros HS HD. unfold tree_text. rewrite (render_aitems (stok sp) D HD). induction (wvis eo None false 0 T) as [|v r IH]; [intros []|].
   cbn [flat_map]. apply nocomma_app; [|exact IH]. unfold vtext.
   apply nocomma_app; [destruct (v_open v); unfold nocomma; cbn; intuition discriminate|].
-  apply nocomma_app; [apply optb_nocomma|]. apply nocomma_app; [apply nocomma_app; [apply upper_nocomma, HU|apply fbt_nocomma, HD]|].
+  apply nocomma_app; [apply optb_nocomma|]. apply nocomma_app; [apply nocomma_app; [apply nocomma_b; apply (aspec_table _ (HS (v_key v)))|apply fbt_nocomma, HD]|].
   destruct (v_close v); unfold nocomma; cbn; intuition discriminate.
 Qed.
 
 (** ------------------------------------------------------------------ a list of ring-free all-atom fragments *)
-(** name, graph, elements, descriptors, nodes with a default hydrogen count *)
-Definition afrag := (pystr * graph * (Z -> pystr) * (Z -> list dspec) * list Z)%type.
+(** name, graph, atom attributes, descriptors, nodes with a default hydrogen count *)
+Definition afrag := (pystr * graph * (Z -> aspec) * (Z -> list dspec) * list Z)%type.
 Definition af_name (f : afrag) : pystr := let '(F, _, _, _, _) := f in F.
 Definition af_entry (f : afrag) : frag_entry := let '(F, g, _, _, dhl) := f in (F, g, [], dhl).
 Definition af_ok (f : afrag) : Prop :=
-  let '(F, g, el, D, dhl) := f in
+  let '(F, g, sp, D, dhl) := f in
   nocomma F /\ ~ In "="%char F
-  /\ (forall k, str_in (el k) upper_organic = true) /\ (forall k, forallb d_ok (D k) = true)
-  /\ (forall n, In n g -> atom_ok (fun k => memz k dhl) el D n) /\ orders_ok g
+  /\ (forall k, aspec_ok (sp k) = true) /\ (forall k, forallb d_ok (D k) = true)
+  /\ (forall n, In n g -> atom_ok (fun k => memz k dhl) sp D n) /\ orders_ok g
   /\ graph_wf g = true /\ g <> [].
 (** what is known of the text written for one fragment: [AtomTree.atom_tree_graph] *)
-Definition af_back (fo : float_oracle) (f : afrag) (t : pystr) : Prop :=
-  let '(F, g, el, D, dhl) := f in
+Definition af_back (fo : float_oracle) (a0 : attrs) (f : afrag) (t : pystr) : Prop :=
+  let '(F, g, sp, D, dhl) := f in
   exists T, min_node g = Ok (rkey T) /\ dfs_edges g (rkey T) = Ok (redges T) /\ NoDup (rkeys T)
-    /\ t = tree_text el D (eo_of g) T
+    /\ t = tree_text (stok sp) D (eo_of g) T
     /\ write_graph_by (S "atomname") true (fun k => memz k dhl) g [] = Ok t
-    /\ strip_bonding_descriptors fo t = Ok (tree_clean el (eo_of g) T, ddl 0 (map D (worder T)) [], [], [])
-    /\ smiles_parse (tree_clean el (eo_of g) T) = Ok (tree_sgraph el (eo_of g) T)
-    /\ fragment_template fo F t = Ok (assemble F (tree_sgraph el (eo_of g) T) (ddl 0 (map D (worder T)) []) []).
+    /\ strip_bonding_descriptors fo t
+       = Ok (tree_clean (stok sp) (eo_of g) T, ddl 0 (map D (worder T)) [], [], annl a0 0 (map (fun k => negb (a_bare (sp k))) (worder T)) [])
+    /\ smiles_parse (tree_clean (stok sp) (eo_of g) T) = Ok (tree_sgraph (sattrs sp) (eo_of g) T)
+    /\ fragment_template fo F t = Ok (assemble F (tree_sgraph (sattrs sp) (eo_of g) T) (ddl 0 (map D (worder T)) [])
+                                              (annl a0 0 (map (fun k => negb (a_bare (sp k))) (worder T)) [])).
 (** fragment_iter(fragment_str, all_atom=True) up to pysmiles' hydrogen completion: (fragname, template) per definition *)
 Definition read_atom_fragments (fo : float_oracle) (s : pystr) : list (pystr * res tmpl) :=
   map (fun nt => (fst nt, fragment_template fo (fst nt) (snd nt))) (fragment_split s).
 
-Lemma af_one fo f : af_ok f -> exists t, af_back fo f t /\ nocomma t.
+Lemma af_one fo a0 f : fragment_node_parser fo [] = Ok a0 -> af_ok f -> exists t, af_back fo a0 f t /\ nocomma t.
 Proof.
-  destruct f as [[[[F g] el] D] dhl]. intros (N1 & N2 & HU & HD & Hn & Ho & Hwf & Hne).
+  destruct f as [[[[F g] sp] D] dhl]. intros Hp0 (N1 & N2 & HS & HD & Hn & Ho & Hwf & Hne).
   assert (Hm : exists start, min_node g = Ok start) by (unfold min_node, node_keys; destruct g; [contradiction|cbn; eauto]).
   destruct Hm as [start Hmin].
-  destruct (atom_tree_graph (fun k => memz k dhl) el D g HU HD Hn Ho fo F start Hwf Hmin) as [T (A1 & A2 & A3 & _ & _ & X)].
+  destruct (atom_tree_graph (fun k => memz k dhl) sp D g HS HD Hn Ho fo a0 F start Hp0 Hwf Hmin) as [T (A1 & A2 & A3 & _ & _ & X)].
   cbv zeta in X. destruct X as (W & St & Sp & Ft). subst start.
-  exists (tree_text el D (eo_of g) T). split; [|now apply tree_text_nocomma].
+  exists (tree_text (stok sp) D (eo_of g) T). split; [|now apply tree_text_nocomma].
   unfold af_back. exists T. repeat split; try assumption. unfold write_graph_by. rewrite W. reflexivity.
 Qed.
 
-Theorem atom_fragments_roundtrip : forall fo (fs : list afrag), fs <> [] -> Forall af_ok fs ->
-  exists ts, Forall2 (af_back fo) fs ts /\
+Theorem atom_fragments_roundtrip : forall fo a0 (fs : list afrag), fragment_node_parser fo [] = Ok a0 -> fs <> [] -> Forall af_ok fs ->
+  exists ts, Forall2 (af_back fo a0) fs ts /\
     let txt := S "{" ++ join (S ",") (map nt_def (combine (map af_name fs) ts)) ++ S "}" in
     write_cgsmiles_fragments true (map af_entry fs) = Ok txt
     /\ fragment_split txt = combine (map af_name fs) ts
     /\ read_atom_fragments fo txt = map (fun nt => (fst nt, fragment_template fo (fst nt) (snd nt))) (combine (map af_name fs) ts).
 Proof.
-  intros fo fs Hne H.
-  assert (E : exists ts, Forall2 (fun f t => af_back fo f t /\ nocomma t) fs ts).
+  intros fo a0 fs Hp0 Hne H.
+  assert (E : exists ts, Forall2 (fun f t => af_back fo a0 f t /\ nocomma t) fs ts).
   { clear Hne. induction fs as [|f fs IH]; [exists []; constructor|].
-    destruct (af_one fo f (Forall_inv H)) as [t Ht]. destruct (IH (Forall_inv_tail H)) as [ts Hts]. exists (t :: ts). now constructor. }
+    destruct (af_one fo a0 f Hp0 (Forall_inv H)) as [t Ht]. destruct (IH (Forall_inv_tail H)) as [ts Hts]. exists (t :: ts). now constructor. }
   destruct E as [ts Hts]. exists ts. split; [clear - Hts; induction Hts as [|f t fs' ts' [X _] _ IH]; constructor; assumption|]. cbv zeta.
   assert (Hnames : map (fun e : frag_entry => fst (fst (fst e))) (map af_entry fs) = map af_name fs).
-  { rewrite map_map. apply map_ext. intros [[[[F g] el] D] dhl]. reflexivity. }
+  { rewrite map_map. apply map_ext. intros [[[[F g] sp] D] dhl]. reflexivity. }
   assert (Hw : write_cgsmiles_fragments true (map af_entry fs) = Ok (S "{" ++ join (S ",") (map nt_def (combine (map af_name fs) ts)) ++ S "}")).
   { rewrite <- Hnames. apply write_definitions. clear - Hts. induction Hts as [|f t fs' ts' [X _] _ IH]; [constructor|]. cbn [map]. constructor; [|exact IH].
-    destruct f as [[[[F g] el] D] dhl]. cbn [af_entry]. destruct X as [T (_ & _ & _ & _ & W & _)]. exact W. }
+    destruct f as [[[[F g] sp] D] dhl]. cbn [af_entry]. destruct X as [T (_ & _ & _ & _ & W & _)]. exact W. }
   assert (Hs : fragment_split (S "{" ++ join (S ",") (map nt_def (combine (map af_name fs) ts)) ++ S "}") = combine (map af_name fs) ts).
   { apply split_definitions.
     - destruct fs as [|f fs]; [contradiction|]. inversion Hts; subst. discriminate.
     - clear Hne Hw Hnames. induction Hts as [|f t fs' ts' [X Hc] _ IH]; [constructor|]. cbn [map combine]. constructor; [|apply IH; exact (Forall_inv_tail H)].
-      pose proof (Forall_inv H) as Hf. destruct f as [[[[F g] el] D] dhl]. destruct Hf as (N1 & N2 & _). unfold nt_ok, af_name. cbn [fst snd]. auto. }
+      pose proof (Forall_inv H) as Hf. destruct f as [[[[F g] sp] D] dhl]. destruct Hf as (N1 & N2 & _). unfold nt_ok, af_name. cbn [fst snd]. auto. }
   split; [exact Hw|]. split; [exact Hs|]. unfold read_atom_fragments. now rewrite Hs.
 Qed.
 
-(** non-vacuity: two fragments *)
-Definition ex_ag2 : graph := mkag [(3, "C", 3, []); (5, "S", 0, [("$"%char, [], 1%nat)]); (9, "Br", 0, [])]%string [(3, 5, 1); (5, 9, 1)].
-Definition ex_ael2 (k : Z) : pystr := if Z.eqb k 5 then S "S" else if Z.eqb k 9 then S "Br" else S "C".
+(** non-vacuity: two fragments, the first with a charged atom and an atom without default hydrogen count *)
+Definition ex_ag2 : graph := mkag [(3, "C", 3, 0, []); (5, "S", 0, 0, [("$"%char, [], 1%nat)]); (9, "Br", 0, 0, [])]%string [(3, 5, 1); (5, 9, 1)].
+Definition ex_asp2 (k : Z) : aspec := if Z.eqb k 5 then mksp "S" 0 0 true else if Z.eqb k 9 then mksp "Br" 0 0 true else mksp "C" 3 0 true.
 Definition ex_aD2 (k : Z) : list dspec := if Z.eqb k 5 then [("$"%char, [], 1%nat)] else [].
-Definition ex_afs : list afrag := [(S "X", ex_ag, ex_ael, ex_aD, [0; 1; 2; 3; 4; 5; 6]); (S "Y", ex_ag2, ex_ael2, ex_aD2, [3; 5; 9])].
-Definition ex_atxt := S "{#X=C[$a](N(CF)C#Cl=[<x].[!])=O[>],#Y=CS[$]Br}".
-Definition orders_ok_b (g : graph) : bool :=
-  forallb (fun n => forallb (fun wa => match aget (S "order") (snd wa) with Some (VInt z) => (0 <=? z) && (z <=? 4) | _ => false end) (nadj n)) g.
-Lemma orders_ok_dec g : orders_ok_b g = true -> orders_ok g.
-Proof.
-  unfold orders_ok_b, orders_ok. intros Hb n Hn wa Hwa. rewrite forallb_forall in Hb. specialize (Hb n Hn). rewrite forallb_forall in Hb. specialize (Hb wa Hwa).
-  clear Hn Hwa. destruct (aget (S "order") (snd wa)) as [[| |z| | | | |]|]; try discriminate Hb. exists z. split; [reflexivity|]. apply andb_prop in Hb as [B1 B2]. lia.
-Qed.
+Definition ex_afs : list afrag := [(S "X", ex_ag, ex_asp, ex_aD, [0; 1; 2; 3; 5; 6]); (S "Y", ex_ag2, ex_asp2, ex_aD2, [3; 5; 9])].
+Definition ex_atxt := S "{#X=C[$a]([N+]([CH2]F)C#Cl=[<x].[!])=O[>],#Y=CS[$]Br}".
 Lemma nonempty_dec (g : graph) : (0 <? length g)%nat = true -> g <> [].
 Proof. intros H E. subst g. discriminate H. Qed.
 Lemma ex_afs_ok : Forall af_ok ex_afs.
@@ -146,12 +141,12 @@ Proof.
   assert (NC : forall c, nocomma [c] <-> c <> ","%char) by (intros c; unfold nocomma; cbn; intuition).
   constructor; [|constructor; [|constructor]]; unfold af_ok.
   - split; [apply NC; discriminate|]. split; [intros [E|[]]; discriminate E|].
-    split; [intros k; unfold ex_ael; repeat (match goal with |- context [Z.eqb k ?z] => destruct (Z.eqb k z) end); reflexivity|].
+    split; [intros k; unfold ex_asp; repeat (match goal with |- context [Z.eqb k ?z] => destruct (Z.eqb k z) end); reflexivity|].
     split; [intros k; unfold ex_aD; repeat (match goal with |- context [Z.eqb k ?z] => destruct (Z.eqb k z) end); reflexivity|].
     split; [intros n Hn; apply atom_ok_dec; revert n Hn; apply forallb_forall; vm_compute; reflexivity|].
     split; [apply orders_ok_dec; vm_compute; reflexivity|]. split; [vm_compute; reflexivity|apply nonempty_dec; vm_compute; reflexivity].
   - split; [apply NC; discriminate|]. split; [intros [E|[]]; discriminate E|].
-    split; [intros k; unfold ex_ael2; repeat (match goal with |- context [Z.eqb k ?z] => destruct (Z.eqb k z) end); reflexivity|].
+    split; [intros k; unfold ex_asp2; repeat (match goal with |- context [Z.eqb k ?z] => destruct (Z.eqb k z) end); reflexivity|].
     split; [intros k; unfold ex_aD2; repeat (match goal with |- context [Z.eqb k ?z] => destruct (Z.eqb k z) end); reflexivity|].
     split; [intros n Hn; apply atom_ok_dec; revert n Hn; apply forallb_forall; vm_compute; reflexivity|].
     split; [apply orders_ok_dec; vm_compute; reflexivity|]. split; [vm_compute; reflexivity|apply nonempty_dec; vm_compute; reflexivity].
@@ -160,11 +155,12 @@ Example atom_fragments_example :
   Forall af_ok ex_afs
   /\ write_cgsmiles_fragments true (map af_entry ex_afs) = Ok ex_atxt
   /\ map fst (read_atom_fragments (fun _ => None) ex_atxt) = [S "X"; S "Y"]
-  /\ map (fun nr => match snd nr with Ok Tm => (map (fun a => (aget (S "element") a, aget (S "bonding") a)) (t_nodes Tm), t_edges Tm) | Err _ => ([], []) end)
+  /\ map (fun nr => match snd nr with Ok Tm => (map (fun a => (aget (S "element") a, aget (S "charge") a, aget (S "bonding") a)) (t_nodes Tm), t_edges Tm) | Err _ => ([], []) end)
          (read_atom_fragments (fun _ => None) ex_atxt)
-     = [([(Some (VStr (S "C")), Some (VList [VStr (S "$a1")])); (Some (VStr (S "N")), None); (Some (VStr (S "C")), None); (Some (VStr (S "F")), None);
-          (Some (VStr (S "C")), None); (Some (VStr (S "Cl")), Some (VList [VStr (S "<x2"); VStr (S "!0")])); (Some (VStr (S "O")), Some (VList [VStr (S ">1")]))],
+     = [([(Some (VStr (S "C")), Some (VInt 0), Some (VList [VStr (S "$a1")])); (Some (VStr (S "N")), Some (VInt 1), None); (Some (VStr (S "C")), Some (VInt 0), None);
+          (Some (VStr (S "F")), Some (VInt 0), None); (Some (VStr (S "C")), Some (VInt 0), None);
+          (Some (VStr (S "Cl")), Some (VInt 0), Some (VList [VStr (S "<x2"); VStr (S "!0")])); (Some (VStr (S "O")), Some (VInt 0), Some (VList [VStr (S ">1")]))],
          [(0, 1, VInt 1); (1, 2, VInt 1); (2, 3, VInt 1); (1, 4, VInt 1); (4, 5, VInt 3); (0, 6, VInt 2)]%nat);
-        ([(Some (VStr (S "C")), None); (Some (VStr (S "S")), Some (VList [VStr (S "$1")])); (Some (VStr (S "Br")), None)],
+        ([(Some (VStr (S "C")), Some (VInt 0), None); (Some (VStr (S "S")), Some (VInt 0), Some (VList [VStr (S "$1")])); (Some (VStr (S "Br")), Some (VInt 0), None)],
          [(0, 1, VInt 1); (1, 2, VInt 1)]%nat)].
 Proof. split; [exact ex_afs_ok|]. split; [vm_compute; reflexivity|]. split; vm_compute; reflexivity. Qed.
